@@ -108,7 +108,7 @@ def run_programs(ctx, family, progs, trace, shards=12):
 def judge_trace(ctx, trace, source, kd, classify=True):
     cfg = ctx.path("t_retry.cfg")
     lib.write_cfg(cfg, {"KnownDeviations": lib.tla_set(kd)}, "TInit", "TNext", invariants=["Done"])
-    v = lib.judge(ctx, MODULE_T, cfg, trace)
+    v = lib.judge(ctx, MODULE_T, cfg, trace, max_events=25000)
     v["violations"] = sorted(set(v["violations"]))
     ctx.stage("judge", source=source, events=v["events"], violations=len(v["violations"]), deviations=len(v["deviations"]), wall_s=v["wall_s"])
     if classify:
@@ -234,7 +234,7 @@ def apalache(ctx):
                        ("consecution", ["--init=IndInv", "--inv=IndInv", "--length=1"]),
                        ("implies_bound", ["--init=IndInv", "--inv=AttemptsBounded", "--length=0"])):
         try:
-            r = subprocess.run(["timeout", "240", exe, "check", "--out-dir=" + os.path.join(d, "out"), "--next=Next"] + args + ["APA_Retry.tla"],
+            r = subprocess.run(["timeout", "240", exe, "check", "--out-dir=" + os.path.join(d, "out"), "--cinit=CInit", "--next=Next"] + args + ["APA_Retry.tla"],
                                cwd=d, stdout=subprocess.PIPE, stderr=subprocess.STDOUT, text=True, timeout=300)
             res[name] = "ok" if "The outcome is: NoError" in r.stdout else ("error" if "The outcome is: Error" in r.stdout else f"inconclusive(rc={r.returncode})")
         except Exception as ex:  # informational only
